@@ -110,10 +110,16 @@ def unit_ast(draw, max_factors=5, mild=False, coeff=True, frac_ok=True):
             e = draw(st.sampled_from([Fr(2), Fr(-1), Fr(1, 2), Fr(3)] if frac_ok else [Fr(2), Fr(-1), Fr(3)]))
             if e.denominator != 1 and _has_negative(node):
                 e = Fr(2)
-            node = ("**", node, e)
+            if coeff and draw(st.booleans()):
+                # a numeric coefficient *under* the power: sqrt(2*km), (10*km**3)**(1/3), (3*km)**-1
+                node = ("*", ("n", draw(st.sampled_from(["2", "3", "10", "8", "0.5", "1000", "7", "2.5"]))), node)
+            node = ("sqrt", node) if e == Fr(1, 2) and draw(st.booleans()) else ("**", node, e)
     if coeff and draw(st.integers(0, 3)) == 0:
         c = draw(st.sampled_from(["2", "3", "10", "1000", "0.5", "2.5", "1e3", "1.0e-2", "12", "0.001"]))
         node = ("*", ("n", c), node)
+        if draw(st.integers(0, 2)) == 0 and not _has_negative(node):
+            e = draw(st.sampled_from([Fr(1, 2), Fr(1, 3), Fr(-1, 2), Fr(3, 2), Fr(-1), Fr(2)] if frac_ok else [Fr(2), Fr(-1)]))
+            node = ("sqrt", node) if e == Fr(1, 2) and draw(st.booleans()) else ("**", node, e)
     return node
 
 
